@@ -33,7 +33,7 @@ def run(chk, tier, pid):
     for oi, defined in enumerate(ORDERS):
         names = json.loads("[" + defined[1:-1] + "]")
         targets = "{" + ", ".join('"%s"' % n for n in names + ["@u"]) + "}"
-        mod = 12 if thorough else 150
+        mod = 12 if thorough else 50
         r = tlc_ok(tlc("JSightMacro", "JSightMacro.cfg", timeout=3000,
                        consts={"Defined": defined, "Targets": targets, "SampleMod": str(mod), "SamplePick": str((sd + oi) % mod)}),
                    "JSightMacro")
